@@ -135,7 +135,11 @@ type Kernel struct {
 	AfterStep     func()
 	harnessErr    *HarnessError
 	StopRequested bool
-	rr            int
+	// AtomicPoints turns the AtomicPoint calls inserted by simrewrite into
+	// scheduling points (interleavings between individual atomic operations).
+	AtomicPoints bool
+	AtomicParks  int
+	rr           int
 	// LastActor is the actor resumed by the most recent step (nil for
 	// controller-only events); LastKey is that step's event key.
 	LastActor *Actor
@@ -387,6 +391,29 @@ func (k *Kernel) SeamW(label string, weight, faultWeight int, options ...string)
 		options = options[:1]
 	}
 	return k.park(a, &Ticket{kind: tSeam, Label: label, Options: options, Weight: weight, FaultWeight: faultWeight})
+}
+
+// AtomicPoint is inserted by simrewrite before every statement of the code
+// under test that calls a method of a sync/atomic type. It is a scheduling
+// point only in runs whose world set Kernel.AtomicPoints, and only for
+// goroutines that are actors; otherwise it does nothing.
+func AtomicPoint() {
+	k := K
+	if k == nil || !k.AtomicPoints {
+		return
+	}
+	g := goid()
+	if g == k.controller {
+		return
+	}
+	k.mu.Lock()
+	a := k.actors[g]
+	k.mu.Unlock()
+	if a == nil {
+		return
+	}
+	k.AtomicParks++
+	k.park(a, &Ticket{kind: tSeam, Label: "atomic"})
 }
 
 // Yield is a seam without fault options.
